@@ -293,7 +293,7 @@ func TestC20_S1Stats(t *testing.T) {
 
 func quiesceProfile(name string) *vh.Profile {
 	return &vh.Profile{Name: name, Executors: both(), MinLen: 1, MaxLen: 100, MaxKeys: 10,
-		Ops: with(vh.BaseOps(), "set", 24, "quiesce", 3, "runtasks", 8, "setmaximum", 3, "invalidate", 6, "compute", 8, "iter", 3, "burst", 1)}
+		Ops: with(vh.BaseOps(), "set", 24, "quiesce", 3, "runtasks", 8, "setmaximum", 3, "invalidate", 6, "compute", 8, "iter", 3)}
 }
 
 func TestC04_S1Bound(t *testing.T) {
@@ -376,3 +376,35 @@ func TestC06_S1Events(t *testing.T) {
 		Assumptions: commonAssumptions,
 	})
 }
+
+// ---- write buffer full: the caller-runs fallback (deferred executor, bursts of > 2048 writes) -------------
+
+func burstProfile(name string) *vh.Profile {
+	return &vh.Profile{Name: name, Executors: []int{vh.ExecDeferred}, MinLen: 1, MaxLen: 10, MaxKeys: 6,
+		Ops: map[string]int{"burst": 6, "set": 6, "invalidate": 2, "compute": 2, "runtasks": 3, "quiesce": 2, "getifpresent": 2, "setmaximum": 1, "iter": 1}}
+}
+
+func burstSpec(prop, test string, facets vh.Facet, needBound bool) s1Spec {
+	p := burstProfile(test)
+	p.NeedBound = needBound
+	return s1Spec{
+		Prop: prop, Test: test,
+		Rule: "short scripts (1-10 actions) with a queueing executor in which 'burst' actions issue 2050-2300 writes over 40-100 keys without letting the executor run, so the write buffer (2048 events on this machine) fills up and writers fall back to caller-runs maintenance; " +
+			"the model is reconciled write by write; at every quiesce action and at the end the quiescence oracles of the property are checked (bound / bookkeeping incl. the structural audit / exactly-once ledger); non-trivial = at least one burst",
+		Profile: p, Facets: facets | vh.FPanic, FinalQuiesce: true,
+		NonTrivial: func(r *vh.Runner) bool { return r.St.Bursts > 0 },
+		Classes: func(r *vh.Runner) []string {
+			if r.St.Bursts > 0 {
+				return []string{"write-buffer-filled"}
+			}
+			return nil
+		},
+		Assumptions: commonAssumptions,
+	}
+}
+
+func TestC04_S1Burst(t *testing.T) {
+	s1Main(t, burstSpec("C04", "S1Burst", vh.FBound|vh.FJustify, true))
+}
+func TestC05_S1Burst(t *testing.T) { s1Main(t, burstSpec("C05", "S1Burst", vh.FBook, false)) }
+func TestC06_S1Burst(t *testing.T) { s1Main(t, burstSpec("C06", "S1Burst", vh.FEvents, false)) }
